@@ -200,9 +200,11 @@ Lemma conv_ret {R} (r : R) : Conv (fun _ => Some r) r.
 Proof. exists 0. reflexivity. Qed.
 
 (** the tokens that can follow an expression *)
-Definition k_THEN' := k_THEN.
+(** a token after which no operator, postfix or call can continue the expression *)
 Definition stop_tok (t : stok) : bool :=
-  is_p p_rp t || is_p p_comma t || is_p p_rb t || is_w k_THEN t || is_w k_ELSE t || is_w k_END t.
+  match bin_level t with None => true | Some _ => false end
+  && negb (is_w k_IS t) && negb (is_w k_IN t) && negb (is_w k_NOT t) && negb (is_w k_FILTER t)
+  && negb (is_p p_lp t) && negb (is_p p_lb t) && negb (is_p p_dot t).
 Definition stop (rest : list stok) : Prop := match rest with [] => True | t :: _ => stop_tok t = true end.
 (** after an atom: no `(`, no FILTER; after a closed operand additionally no `[` *)
 Definition nf (rest : list stok) : Prop := match rest with [] => True | t :: _ => is_p p_lp t = false /\ is_w k_FILTER t = false /\ is_p p_dot t = false end.
@@ -215,18 +217,9 @@ Lemma stop_facts t : stop_tok t = true ->
   is_p p_lp t = false /\ is_w k_FILTER t = false /\ is_p p_lb t = false /\ is_w k_IS t = false /\ is_w k_IN t = false /\ bin_level t = None
   /\ is_w k_NOT t = false /\ is_p p_dot t = false.
 Proof.
-  unfold stop_tok. destruct t as [s|s|s|s|s|s]; cbn; try discriminate.
-  - (* word *) intros H. repeat rewrite Bool.orb_false_l in H.
-    unfold is_w in H. cbn in H.
-    destruct (str_eqb (map upper_c s) k_THEN) eqn:E1.
-    { apply str_eqb_eq in E1. rewrite E1. vm_compute. repeat split; reflexivity. }
-    destruct (str_eqb (map upper_c s) k_ELSE) eqn:E2.
-    { apply str_eqb_eq in E2. rewrite E2. vm_compute. repeat split; reflexivity. }
-    cbn in H. apply str_eqb_eq in H. rewrite H. vm_compute. repeat split; reflexivity.
-  - (* punctuation *) intros H. unfold is_p in H. cbn in H.
-    destruct (str_eqb s p_rp) eqn:E1. { apply str_eqb_eq in E1. subst s. vm_compute. repeat split; reflexivity. }
-    destruct (str_eqb s p_comma) eqn:E2. { apply str_eqb_eq in E2. subst s. vm_compute. repeat split; reflexivity. }
-    cbn in H. rewrite !Bool.orb_false_r in H. apply str_eqb_eq in H. subst s. vm_compute. repeat split; reflexivity.
+  unfold stop_tok. intros H. repeat (apply andb_prop in H as [H ?]).
+  repeat match goal with Hn : negb _ = true |- _ => apply Bool.negb_true_iff in Hn end.
+  destruct (bin_level t); [discriminate|]. repeat split; assumption.
 Qed.
 
 Lemma stop_nb rest : stop rest -> nb rest.
